@@ -193,6 +193,9 @@ def specUn (psBefore : PState) (ss : SState) (newId : Nat) (mres : String) (op a
       | some (_, tc, kt) => tc.contains d.dt && kt.contains d.dt
       | none => false
     if !supported then refuse ss else
+    -- `UseUnsafe()` together with a reuse or increment tensor names two destinations: the properties do not say which
+    -- one wins (the library works in place on the operand and ignores the other) - nothing is claimed
+    if unsafe_ && (incrTok.isSome || reuseTok.isSome) then undef ss else
     -- an increment is an addition: bool has none, the element type is outside the domain of `Apply` with `WithIncr`
     if op == "apply" && incrTok.isSome && d.dt == "b" then refuse ss else
     match t.elems ss with
